@@ -16,6 +16,26 @@ pub trait USet: Sized + Clone + PartialEq + std::fmt::Debug + Send + Sync + 'sta
     const HEADER: usize;
     const ELEM: usize;
     const ALIGN: usize;
+    /// typed wrapper (`Set64<T>`, `SetUsize`): values are raw bit patterns of `T`, `enc` is `to_u64`
+    const TYPED: bool = false;
+    const HAS_OWN_OPS: bool = true;
+    fn enc(v: u64) -> u64 {
+        v
+    }
+    fn norm(v: u64) -> u64 {
+        v & Self::max_elem()
+    }
+    /// minimum / maximum in the element type's own order
+    fn pick(v: &[u64], max: bool) -> Option<u64> {
+        if max {
+            v.iter().cloned().max()
+        } else {
+            v.iter().cloned().min()
+        }
+    }
+    fn hash_words(&self) -> Option<Vec<u64>> {
+        None
+    }
     fn max_elem() -> u64;
     fn new() -> Self;
     fn wcb(cap: usize, bits: u64) -> Self;
